@@ -162,9 +162,10 @@ func runC02(c *Ctx) {
 	// round 16 (C02-m31): the supplier table's result index is fixed when the entry is created - it is stored into a
 	// freshly allocated fnProvider only, never into an entry read back from the table (the first result group that
 	// offers a type is the one its consumers get)
-	if ng := genFn(c, "C02.2", "NewGraph"); ng != nil {
+	{
 		nIdx := 0
-		for _, st := range storesToField(withClosures(ng), "internal/kessoku.fnProvider.returnIndex") {
+		// wherever the table is filled (NewGraph today; a helper split out of it is the same obligation)
+		for _, st := range storesToField(pkgFuncs(L, genPkg), "internal/kessoku.fnProvider.returnIndex") {
 			nIdx++
 			fresh := false
 			if fa, ok := st.Addr.(*ssa.FieldAddr); ok {
@@ -172,7 +173,7 @@ func runC02(c *Ctx) {
 			}
 			c.check(fresh, "C02.2", "NewGraph:supplier-index-written-at-creation-only", L.pos(st.Pos()), "the result index of a supplier-table entry is written when the entry is created, not updated on a later occurrence of the same type", fmt.Sprintf("store #%d of fnProvider.returnIndex", nIdx))
 		}
-		c.floor("C02.2", "stores of fnProvider.returnIndex in NewGraph", nIdx, 2)
+		c.floor("C02.2", "stores of fnProvider.returnIndex in the generator package", nIdx, 1)
 	}
 	if build := genFn(c, "C02.2", "(*Graph).Build"); build != nil {
 		// providerArgs[edge.provideArgDst] = {Param: n.returnValues[edge.provideArgSrc]}
